@@ -1,11 +1,11 @@
 (** Extraction of the generator-pattern model (M3) for the correspondence checks of C06/C07/C11/C12/C13/C19.
     Directives: [ExtrOcamlBasic] only.  N/positive/nat stay Coq inductives. *)
 From Coq Require Import Extraction ExtrOcamlBasic.
-From Pi2 Require Import ML.Syntax Py.Pattern Py.Pretty.
+From Pi2 Require Import ML.Syntax Py.Pattern Py.Pretty Py.Serial.
 Extraction Language OCaml.
 Extraction "py_model.ml" flags_sound flags_pinned embed expand p_inst p_esubst p_ssubst
   py_inst py_esubst py_ssubst simplify hnf py_eq py_fresh metavars p_metavars
   match_single match_list ncall nmatches nassert
   unwrap_imp unwrap_app decon_evar decon_svar decon_sym decon_ex decon_mu
   basic_mp basic_gen basic_inst e_fresh pat_eqb
-  pretty covers.
+  pretty covers emits instrs_of pretty_step decode.
